@@ -144,7 +144,24 @@ var c05extra = map[string]interface{}{
 	"p_nil": (*int)(nil), "p_set": new(int), "if_nil": interface{}(nil), "m_nil": map[string]int(nil), "m_empty": map[string]int{},
 	"sl_empty": []int{}, "sl_nil": []int(nil),
 	"ifc": []interface{}{false, 0, "", nil, 0.25, "x", true},
+	// conditions held in interface types that carry methods: what counts is the value inside, not that the interface is non-nil
+	"sts":  []fmt.Stringer{c05nInt(0), c05nInt(3), c05nStr(""), c05nStr("x"), c05nBool(false), c05nBool(true), nil, c05nFloat(0), c05nFloat(0.5)},
+	"errz": c05holder{E: c05nErr(0), F: c05nErr(2)},
 }
+
+type c05nInt int
+type c05nStr string
+type c05nBool bool
+type c05nFloat float64
+type c05nErr int
+
+func (c05nInt) String() string   { return "nInt" }
+func (c05nStr) String() string   { return "nStr" }
+func (c05nBool) String() string  { return "nBool" }
+func (c05nFloat) String() string { return "nFloat" }
+func (c05nErr) Error() string    { return "nErr" }
+
+type c05holder struct{ E, F, N error }
 
 func truthyOpaque(src string, truthy bool) prog.Opaque {
 	return prog.Opaque{Src: src, Val: prog.Bool(truthy)}
@@ -158,6 +175,8 @@ var c05conds = []prog.Opaque{
 	truthyOpaque("sl_empty", true), truthyOpaque("sl_nil", false),
 	truthyOpaque("0.5", true), truthyOpaque("0.0", false), truthyOpaque("0", false), truthyOpaque("-1", true), truthyOpaque(`""`, false), truthyOpaque(`"a"`, true), truthyOpaque("nil", false),
 	truthyOpaque("ifc[0]", false), truthyOpaque("ifc[1]", false), truthyOpaque("ifc[2]", false), truthyOpaque("ifc[3]", false), truthyOpaque("ifc[4]", true), truthyOpaque("ifc[5]", true), truthyOpaque("ifc[6]", true),
+	truthyOpaque("sts[0]", false), truthyOpaque("sts[1]", true), truthyOpaque("sts[2]", false), truthyOpaque("sts[3]", true), truthyOpaque("sts[4]", false), truthyOpaque("sts[5]", true),
+	truthyOpaque("sts[6]", false), truthyOpaque("sts[7]", false), truthyOpaque("sts[8]", true), truthyOpaque("errz.E", false), truthyOpaque("errz.F", true), truthyOpaque("errz.N", false),
 	truthyOpaque("f_half > 0.25", true), truthyOpaque("i8_neg == 0", false), truthyOpaque("not f_zero", true), truthyOpaque("f_zero || s_empty", false), truthyOpaque("f_tiny && s_zero", true),
 }
 
@@ -259,7 +278,7 @@ func init() {
 	const ruleCommon = "each case is a generated template set (every action renders unique tokens) executed by the real engine and by the reference evaluator; oracle: identical output, error/no error, call log of probe functions and caller VarMap afterwards; multi-file sets are then run again as a sequence of 2-5 entry points (main, layouts, libraries, include targets) on ONE Set, each compared with the evaluator run for that entry alone; "
 	registerProg(c05, "reference-evaluator output monitor over generated if/range programs (all rangeable kinds, all variable forms, condition values of every kind)",
 		ruleCommon+"programs nest if/else-if/else (with and without 'x := e;') and range (zero-, one-, two-variable forms, := and =, else branches) to depth 4 over typed/interface/nil/empty slices, arrays, pointers to slices, single-entry and empty maps, closed channels, ints(a,b), index-providing and index-less custom Rangers; "+
-			"conditions are bools, ints, strings, nil, collections, isset(), comparisons and 42 opaque conditions with known truthiness (floats incl. fractional and zero, narrow ints, uints, nil/non-nil pointers, interfaces holding false/0/\"\"/nil/0.25, logical forms); "+
+			"conditions are bools, ints, strings, nil, collections, isset(), comparisons and 54 opaque conditions with known truthiness (floats incl. fractional and zero, narrow ints, uints, nil/non-nil pointers, interfaces holding false/0/\"\"/nil/0.25, fmt.Stringer/error values holding named zeros, logical forms); "+
 			"non-trivial = if and range both present, or an opaque-kind condition, else-if chain or range-else; plus 120 directed histories executing the same range statements (one Set) over 17 subject kinds of changing kind, incl. Rangers of slice/chan/map kind and Rangers yielding nothing; distinct by feature set", 25000, 1500000, 300)
 	registerProg(c07, "reference-evaluator output monitor over generated scoping programs; caller VarMap inspected after Execute",
 		ruleCommon+"programs mix :=, =, multi-assignment and discard at every depth of if (with let), range (all forms), block, yield with parameters/content and include; the same name is planted in the VarMap, the globals and the built-ins and shadowed locally; loop variables of every ranger kind are captured into outer variables and read after the loop; "+
